@@ -81,6 +81,18 @@ def run_case(case, trace_lines=True):
         # its examples is being serialised)
         trace.append(progs.__file__)
     sched = detsched.Scheduler(chooser, trace_files=trace)
+    stop_window = {'open': False, 'blocked': []}
+
+    def on_block(thread, why):
+        # the CONSUMER has to wait for another thread while its stop is being processed: which submitted tasks are
+        # still pending and not cancelled at that moment? (judge_cancel: cancelling comes before any waiting)
+        if stop_window['open'] and thread.tid == 0 and why != 'quiesce':
+            # only pools the consumer's own thread created: a pool inside a running task is that task's business
+            pend = [f.seq for ex in stop_window['executors']() if ex.creator == 0
+                    for f in ex.work if f.state == 'pending']
+            if pend:
+                stop_window['blocked'].append((why, pend))
+    sched.block_hooks.append(on_block)
     raised = {}
     none_at = set(case.get('none_at', []))
 
@@ -155,7 +167,11 @@ def run_case(case, trace_lines=True):
                     yield fn(x)
             return pu.single_thread_prefetch(EagerlyFailing() if case.get('iter_fail') else gen(), b)
         if kind == 'lpm':
-            return pu.lazy_parallel_map(fn, EagerlyFailing() if case.get('iter_fail') else source(),
+            inp = source()
+            if case.get('under_pf1'):
+                # the input of the parallel map is itself a single-thread prefetch (closing it joins its thread)
+                inp = pu.single_thread_prefetch(inp, case['under_pf1'])
+            return pu.lazy_parallel_map(fn, EagerlyFailing() if case.get('iter_fail') else inp,
                                         buffer_size=b, max_workers=w, backend=False if case.get('serial') else 't')
         vals = [srcval(i) for i in range(n)]
         if case.get('src') == 'dict' or case.get('with_key'):
@@ -207,6 +223,8 @@ def run_case(case, trace_lines=True):
         elif kind == 'pm' and case.get('batched'):
             # batch_map: the same worker pool, applied to the members of (one-element) batches
             ds = ds.map(pull_fn).batch(1).batch_map(fn, num_workers=w, buffer_size=b, backend='t')
+        elif kind == 'pm' and case.get('under_pf1'):
+            ds = ds.map(pull_fn).prefetch(1, case['under_pf1']).map(fn, num_workers=w, buffer_size=b, backend='t')
         elif kind == 'pm':
             ds = ds.map(pull_fn).map(fn, num_workers=w, buffer_size=b, backend='t')
         if case.get('copy'):
@@ -280,6 +298,7 @@ def run_case(case, trace_lines=True):
         if not tr.exhausted and tr.exc is None:
             tr.stopped_by_consumer = True
             sched.event('stop-begin', None, yield_after=False)
+            stop_window['open'] = True
             if stop['kind'] == 'close':
                 try:
                     it.close()
@@ -309,6 +328,7 @@ def run_case(case, trace_lines=True):
             else:
                 del it
                 gc.collect()
+        stop_window['open'] = False
         if case.get('epochs'):
             tr.epochs = [list(tr.delivered)]
             for _ in range(case['epochs'] - 1):
@@ -327,11 +347,13 @@ def run_case(case, trace_lines=True):
         sched.event('end-of-case', None, yield_after=False)
 
     with detsched.Patched(sched) as patched:
+        stop_window['executors'] = lambda: list(patched.executor_cls.instances)
         try:
             _, outcome = sched.run(main)
         except detsched.Abort:
             outcome = 'deadlock' if sched.deadlock else 'steplimit'
         tr.executors = list(patched.executor_cls.instances)
+    tr.blocked_with_pending = stop_window['blocked']
     # examples may be arrays, exception objects or objects that refuse comparison: judge comparable stand-ins
     tr.delivered = [progs.token(x) for x in tr.delivered]
     if hasattr(tr, 'delivered2'):
@@ -357,7 +379,7 @@ def describe(tr):
     return (f"workload {c['kind']} n={c['n']} workers={c['workers']} buffer={c['buffer']} "
             f"with_key={c.get('with_key', False)} src_fail={c.get('src_fail', {})} fn_fail={c.get('fn_fail', {})} "
             f"catch={c.get('catch', False)} stop={c.get('stop')} pauses={c.get('pauses', [])} "
-            + ''.join(f'{k}={c[k]} ' for k in ('vk', 'batched', 'dual', 'copy', 'src', 'shuffled', 'epochs', 'src_none', 'iter_fail', 'nested_pool', 'serial', 'cache_below') if c.get(k) is not None and c.get(k) is not False) +
+            + ''.join(f'{k}={c[k]} ' for k in ('vk', 'batched', 'dual', 'copy', 'under_pf1', 'profiled', 'src', 'shuffled', 'epochs', 'src_none', 'iter_fail', 'nested_pool', 'serial', 'cache_below') if c.get(k) is not None and c.get(k) is not False) +
             f"decisions={len(tr.sched.decisions)} preemptions={tr.sched.preemptions}")
 
 
@@ -434,6 +456,12 @@ def judge_cancel(tr):
         # clause (the pool path only cancels on GeneratorExit; pending tasks run before control returns): clean
         # termination is still required (judge_termination), cancellation is not asserted
         return
+    if getattr(tr, 'blocked_with_pending', None):
+        why, pend = tr.blocked_with_pending[0]
+        raise Violation(f'waits-before-cancel|{tr.case["kind"]}',
+                        f'{describe(tr)}\nafter the consumer stopped, its thread had to WAIT ({why}) while the submitted '
+                        f'tasks {pend} were still pending and not cancelled: the workers execute them meanwhile '
+                        f'(cancelling what has not started must come before any waiting)')
     for ex in tr.executors:
         if ex.pending_at_shutdown:
             raise Violation(f'pending-not-cancelled|{tr.case["kind"]}',
@@ -633,6 +661,11 @@ def st_case(draw, profile):
         case['serial'] = True
         if profile == 'readahead':
             case['buffer'] = draw(st.integers(1, max(1, w)))
+    if profile in ('plain', 'stop', 'fault') and kind in ('lpm', 'pm') and not case.get('serial') \
+            and 'dual' not in case and draw(st.integers(0, 4 if profile != 'stop' else 2)) == 0:
+        # the input of the parallel map is a single-thread prefetch: two kinds of background threads, and a consumer
+        # stop has to wind down both (closing the input joins its hand-over thread)
+        case['under_pf1'] = draw(st.integers(1, 3))
     if n >= 2 and draw(st.integers(0, 3)) > 0:
         # one slow task (many internal yield points): what makes later tasks finish before earlier ones
         case['slow'] = [draw(st.integers(0, n - 2)), draw(st.integers(8, 40))]
